@@ -696,6 +696,24 @@ class TreeSim(taps.Sim):
                     self.rnode(s.path)
                 except KeyError:
                     self.violation("ledger_pos", "%s model pos %r but node absent" % (s.path, s.pos))
+        # ---- the root's positions frame (built on demand from the securities' histories): its row for the current date is the
+        # position held now, whatever was read before on this date (every third observation: the frame is costly to build)
+        if self.nobs % 3 == 0:
+            fr = root.positions
+            exp = {}
+            for s in m.secs():
+                exp[s.path[-1]] = exp.get(s.path[-1], 0.0) + s.pos
+            if len(fr.index):
+                last = fr.iloc[-1]
+                for name in sorted(set(exp) | set(fr.columns)):
+                    got = float(last[name]) if name in fr.columns else 0.0
+                    if got != got:
+                        got = 0.0
+                    e = exp.get(name, 0.0)
+                    if abs(got - e) > 1e-9 * (1 + abs(e)):
+                        self.violation("freshness", "root.positions[%s] on the current date is %r, the tree holds %r (frame read after a delivered update)" % (name, got, e))
+                        ok = False
+                        break
         # ---- bankruptcy: sub-strategies / FI never flagged (root expectations are checked at every root update)
         if root.fixed_income and root.bankrupt:
             self.violation("bankrupt_fi", "fixed income root flagged bankrupt")
